@@ -251,10 +251,11 @@ class Ownership:
         return Expect(['ok'])
 
     # ------------------------------------------------------------------ bookkeeping
-    def canon(self):
+    def canon(self, with_gone=True):
+        """with_gone=False: the removed keys do not matter (no event uses them)"""
         return (tuple(tuple(sorted((k, e.dump()) for k, e in d.items())) for d in self.inst),
                 tuple(sorted((m, tuple(sorted(ss))) for m, ss in self.reg.items())),
-                tuple(tuple(g) for g in self.gone))
+                tuple(tuple(sorted(g)) for g in self.gone) if with_gone else None)
 
 
 def selftest():
